@@ -13,6 +13,7 @@ import DarkluaModel.Rules.Witness
 import DarkluaModel.Rules.WholeRule
 import DarkluaModel.Rules.UnusedIfBranchSound
 import DarkluaModel.Rules.UnusedIfExprSound
+import DarkluaModel.Rules.UnusedIfBranchWhole
 import DarkluaModel.Rules.ComputeExpressionSound
 /-!
 # C01 — default rules preserve program behaviour: property theorems
@@ -255,6 +256,22 @@ theorem remove_unused_if_branch_expr_refines {api : EvalApi} {good : Expr → Pr
 example : Rules.UnusedIfBranch.processExpr litApi (.ifx .true (.call (.var "f") none .tuple []) [] .nil)
     = .paren (.call (.var "f") none .tuple []) := rfl
 
+/-- **Whole rule, every program** (timeout-relaxed): for every evaluator meeting `EvalTotal`,
+`remove_unused_if_branch` — statement and if-expression rewrites, the whole visitor pass — preserves the
+observable outcome of every program unless the original exhausts its budget. -/
+theorem rule_refines_remove_unused_if_branch_upto {api : EvalApi} (ht : EvalTotal api) (b : Block) {N : NumOps}
+    (ρ : ExtOracle N) (n : Nat) (externs : List String) :
+    runProgram ρ n externs b = .timeout ∨
+      runProgram ρ n externs (Rules.UnusedIfBranch.apply api b) = runProgram ρ n externs b :=
+  Rules.UnusedIfBranch.Whole.apply_upto ht b ρ n externs
+
+example : EvalTotal litApi ∧
+    Rules.UnusedIfBranch.apply litApi (.mk [.localFn .loc "g" (.mk [] false none none [] []
+      (.mk [.ifs [(.nil, .mk [.callStmt (.call (.var "f") none .tuple [])] none)]
+          (some (.mk [.callStmt (.call (.var "emit") none .tuple [])] none))] none))] none)
+    = .mk [.localFn .loc "g" (.mk [] false none none [] []
+      (.mk [.doBlock (.mk [.callStmt (.call (.var "emit") none .tuple [])] none)] none))] none := ⟨litApi_total, rfl⟩
+
 /-- the static analysis `can_return_multiple_values` is sound for the reference semantics -/
 theorem can_return_multiple_values_sound {N : NumOps} (call : CallFn N) (ρ : ExtOracle N) (k : Nat) (env : Env N)
     (e : Expr) (hm : canReturnMultiple e = false) (hi : notInst e) (σ σ' : State N) (vs : List (Val N))
@@ -474,5 +491,21 @@ theorem remove_nil_declaration_full_false : ¬ remove_nil_declaration_full := by
     rw [hp] at this
     rw [hr] at h1; rw [this] at h2
     simp [h1] at h2
+
+/-- the one shape of the rewrite that is exact as it stands (no variable moves, no cell is renumbered):
+`local x = nil` ↦ `local x` has exactly the same denotation. Every other shape moves variables and so
+permutes cell numbers — equal only up to a heap bijection (not available in the exact framework). -/
+theorem remove_nil_declaration_single_exact (api : EvalApi) (n : TName) {N : NumOps} (call : CallFn N)
+    (ρ : ExtOracle N) (k : Nat) (env : Env N) (σ : State N) :
+    execS call ρ k env (Rules.NilDeclaration.processLocal api (.localAssign .loc [n] [.nil])) σ
+      = execS call ρ k env (.localAssign .loc [n] [.nil]) σ := by
+  have : Rules.NilDeclaration.processLocal api (.localAssign .loc [n] [.nil]) = .localAssign .loc [n] [] := by
+    simp [Rules.NilDeclaration.processLocal, Rules.NilDeclaration.isNil, Rules.NilDeclaration.nilIndices,
+      Rules.NilDeclaration.removeAt, Rules.NilDeclaration.wrapLast]
+  rw [this]
+  simp [execS, evalEs, evalE, Res.bind, bindLocals, first]
+
+example : Rules.NilDeclaration.processLocal litApi (.localAssign .loc [.mk "x" none] [.nil])
+    = .localAssign .loc [.mk "x" none] [] := rfl
 
 end DarkluaModel.C01
